@@ -324,4 +324,26 @@ theorem wrap_nonneg {n : Nat} {K : SCtx} {k : Ctx} {sub : Bool} {c : Cmd} {s s0 
           · have he' : s1.errexit = false := by simpa using he
             rw [if_neg (by simp [he'])]; exact hplain
 
+theorem wrap_pending {n : Nat} {K : SCtx} {k : Ctx} {sub : Bool} {c : Cmd} {s s0 s1 : St}
+    {fl : Flow} {e1 : Env} {q : Prop} (hn : 1 ≤ n)
+    (h : Pending K k sub c s0 s1 fl e1) :
+    Rel (Post K k sub True q s) (mwrap n c s1) (swrap n k c (fl, e1)) := by
+  obtain ⟨hfl, hsoft, he, hd, _, _, hr, hx, hee, hne, hc0⟩ := h
+  subst hfl; subst he
+  have hic : isChecked c = true := by cases c <;> simp [softCmd] at hsoft <;> rfl
+  have hao : c.isAndOr = false := by cases c <;> simp [softCmd] at hsoft <;> rfl
+  have hKe : K.e = true := by
+    cases hk : K.e with
+    | true => rfl
+    | false => have := hd.noe hk; rw [this] at hee; cases hee
+  have hi : k.ign = false := by rw [← hd.eign hKe]; exact hne
+  have hrt : run n (.trap s1.callbackErr) s1 = some s1 := by
+    rw [hd.cerr]; exact run_trap_nil hn s1
+  have hst : sem n k (.trap (absEnvC s1).trapErr) (absEnvC s1) = some (.norm, absEnvC s1) :=
+    sem_trap_nil hn k _
+  have hok : s1.exit.ok = false := by simp [Exit.ok, hc0]
+  have hee' : (absEnvC s1).errexit = true := hee
+  rw [mwrap_fire hao hok hne hrt, swrap_fire hic hc0 hi hst, if_pos hee, if_pos hee']
+  exact ⟨rfl, hr, rfl, rfl, rfl, hd.csub, hd.ht, hd.cerr⟩
+
 end ShVerif.C26
